@@ -65,6 +65,15 @@ TARGETS = {
                                                         "last_inner_node", "add_to_parents", "add_filter_from_cow", "init_filter_from_cow", "new_inner_node", "pop", "remove",
                                                         "last_id", "last", "get_child", "get_child_mut", "new", "len", "next")],
     "C02d": [("src/blob/core.rs", "get_entry_with_meta"), ("src/blob/core.rs", "filter_entries"), ("src/blob/core.rs", "get_latest_entry")],
+    # fifth batch (after seeding round 3): filter trait impls, bloom constructors, File reads / open flags, blob header, observer
+    "C10e": [("src/filter/traits.rs", "checked_add_assign"), ("src/filter/traits.rs", "contains_fast"), ("src/filter/combined.rs", "checked_add_assign"),
+             ("src/filter/combined.rs", "contains_fast"), ("src/filter/bloom.rs", "from"), ("src/filter/bloom.rs", "save"), ("src/filter/bloom.rs", "new_from_shared_config"),
+             ("src/filter/bloom.rs", "checked_add_assign"), ("src/filter/range.rs", "merge_with"), ("src/filter/range.rs", "checked_add_assign")],
+    "C06e": [("src/blob/header.rs", "from_file"), ("src/blob/header.rs", "validate"), ("src/blob/header.rs", "validate_without_version"),
+             ("src/io/unix/sync.rs", "read_exact_at"), ("src/io/unix/sync.rs", "read_exact_at_allocate"), ("src/io/unix/sync.rs", "read_all")],
+    "C11e": [("src/io/unix/sync.rs", "open"), ("src/io/unix/sync.rs", "create")],
+    "C13e": [("src/storage/observer.rs", "send_msg"), ("src/storage/observer.rs", "run"), ("src/storage/observer.rs", "shutdown")],
+    "C14e": [("src/blob/index/core.rs", "load"), ("src/blob/index/core.rs", "load_in_memory")],
     "C16": [("src/tools/blob_reader.rs", "read_single_record"), ("src/tools/blob_reader.rs", "read_record"), ("src/tools/blob_reader.rs", "is_eof"),
             ("src/tools/utils.rs", "process_blob_with"), ("src/tools/validation.rs", "validate_blob"), ("src/tools/blob_writer.rs", "write_record")],
 }
@@ -164,7 +173,7 @@ def run_one(mt, crate_cache={}):
         slow = ("push_step", "read_all_merge", "hier_no_false_negative", "len_counts_live", "partition_agree", "recovery_copies_prefix", "leaf_packing", "latest_entry_fold")
         obs.sort(key=lambda o_: (o_["func"] in slow, o_["func"]))
     else:
-        obs = props.PROPS[mt["pid"].rstrip("bcd")].get("mir", [])
+        obs = props.PROPS[mt["pid"].rstrip("bcde")].get("mir", [])
     for o in obs:
         if o.get("tier", "quick") != "quick":
             continue
